@@ -319,7 +319,8 @@ def corpus():
         Case('tok', line(['D'], 'x % c\n  y\\'), None, 'corpus'),
         Case('tok', line(['D'], '\\a^'), None, 'corpus'),
         Case('dyn', 'D ; 1 ; 33=11 ; 0 | ' + enc('!!!'), None, 'corpus'),          # \catcode`\!=11 between two reads of the same character
-        Case('dyn', 'D ; 1 ; 64=11 ; 0 | ' + enc('\\f@@ x'), None, 'corpus'),      # the pushed-back character is re-read under the new table
+        Case('dyn', 'D ; 1 ; 64=11 ; 0 | ' + enc('\\f@@ x'), None, 'corpus'),
+        Case('dyn', ' ; 1 ; 94=14 ; 1 | ' + enc('\\a^@'), None, 'corpus'),            # D50: comment while the push-back buffer is not empty      # the pushed-back character is re-read under the new table
     ]
 
 
